@@ -17,7 +17,12 @@ def run_native(mods, flt, repo="/repo", timeout=3600, extra_args=None):
     scratch = tempfile.mkdtemp(prefix="vx_native_")
     try:
         dst = os.path.join(scratch, "repo")
-        subprocess.run(["rsync", "-a", "--exclude", "target", "--exclude", ".git", repo + "/", dst + "/"], check=True)
+        if os.path.exists(os.path.join(repo, "Cargo.toml")):
+            subprocess.run(["rsync", "-a", "--exclude", "target", "--exclude", ".git", repo + "/", dst + "/"], check=True)
+        else:
+            # `repo` is a scratch dir holding only src/ (mutation self-test): overlay it on the real tree
+            subprocess.run(["rsync", "-a", "--exclude", "target", "--exclude", ".git", "/repo/", dst + "/"], check=True)
+            subprocess.run(["rsync", "-a", repo + "/src/", dst + "/src/"], check=True)
         for i, (modfile, testfile) in enumerate(mods):
             name = "vx_native_" + re.sub(r"\W+", "_", os.path.basename(os.path.dirname(testfile)) + "_" + os.path.splitext(os.path.basename(testfile))[0]).lower()
             with open(os.path.join(dst, modfile), "a") as f:
